@@ -98,6 +98,8 @@ Definition has_handle_on_file (s : state) (f : Z) : bool :=
   existsb (fun p => h_file (snd p) =? f) (hnds s).
 Definition has_handle_on (s : state) (f : Z) (k : key) : bool :=
   existsb (fun p => (h_file (snd p) =? f) && key_eqb (h_key (snd p)) k) (hnds s).
+Definition has_other_handle_on (s : state) (h f : Z) (k : key) : bool :=
+  existsb (fun p => negb (fst p =? h) && (h_file (snd p) =? f) && key_eqb (h_key (snd p)) k) (hnds s).
 Definition touches_reserved (l : list Z) : bool := existsb (fun b => b =? -2) l.
 
 
@@ -229,7 +231,19 @@ Definition step1 (s : state) (o : op) : state * res :=
          ROk [n''] (Some (read_at (e_data e) (h_pos x) n''))))
   | OSeek h off origin =>
       with_handle s h (fun x e es =>
-        if e_new e then (s, RUnspec) else
+        if e_new e then
+          (* an element that has no data yet (position 0): measuring from its end is not specified; a seek that
+             does not move is accepted; moving forward needs an extendable element, which then starts its life
+             as an (empty) linked-block element, since it has no place in the file to grow from *)
+          if origin =? DF_END then (s, RUnspec) else
+          if negb ((origin =? DF_START) || (origin =? DF_CURRENT)) then (s, RFail) else
+          let t := off + (if origin =? DF_CURRENT then h_pos x else 0) in
+          if t =? h_pos x then (s, ROk [] None) else
+          if (t <? 0) || negb (h_app x) then (s, RFail) else
+          if has_other_handle_on s h (h_file x) (h_key x) then (s, RUnspec) else
+          let e' := mkelem (e_key e) [] true false (e_alias e) in
+          (set_hnd (set_elems s (h_file x) (eset e' es)) h (mkhnd (h_file x) (h_key x) t (h_app x) (h_wr x)), ROk [] None)
+        else
         if negb ((origin =? DF_START) || (origin =? DF_CURRENT) || (origin =? DF_END)) then (s, RFail) else
         let len := zlen (e_data e) in
         let t := off + (if origin =? DF_CURRENT then h_pos x else if origin =? DF_END then len else 0) in
